@@ -321,7 +321,7 @@ def run(tier: str) -> int:
     if tier == "quick":
         plan = [(1, "full", 2, False, True), (2, "small", 2, False, True), (3, "small", 1, False, False)]
     else:
-        plan = [(1, "full", 2, True, True), (2, "full", 2, False, True), (3, "full", 2, False, True), (4, "small", 1, False, False)]
+        plan = [(1, "full", 2, True, True), (2, "full", 2, False, True), (3, "small", 2, False, True), (3, "full", 1, False, True), (4, "small", 1, False, False)]
     for w, size, depth, full, solver in plan:
         al = si_alphabet(min(w, 3), size) if w <= 3 else [(1, 0, 15), (0, 9, 9), (2, 1, 11), (1, 14, 3), (3, 0, 15), (4, 2, 14)]
         pairs = list(itertools.product(al, al))
